@@ -1,6 +1,6 @@
 //! Generators (edge-biased values, legal encodings) and Gallina printers.
 use crate::ep::{Fv, Sv};
-use dsverif::util::{g_bytes, g_list, g_opt, g_str, Rng};
+use dsverif::util::{g_list, g_opt, Rng};
 
 // ------------------------------------------------------------ scalar types
 
@@ -95,6 +95,62 @@ pub fn int_min_mag(signed: bool, bits: u32) -> u128 {
 }
 
 // ---------------------------------------------------------------- Gallina
+
+fn g_plain(b: &[u8]) -> String {
+    dsverif::util::g_bytes(b)
+}
+
+/// A byte string as a Gallina term of type `str`.  Short strings are list
+/// literals; long ones are written LOSSLESSLY with the run-length operator
+/// `rep n unit` of Run_C09.v wherever a unit of 1..80 bytes repeats (the
+/// large-scope slice sends such values; whatever comes back is encoded the
+/// same way, exactly - a corrupted echo merely compresses less).
+pub fn g_bytes(b: &[u8]) -> String {
+    if b.len() < 96 {
+        return g_plain(b);
+    }
+    let mut parts: Vec<String> = vec![];
+    let mut lit_start = 0usize;
+    let mut i = 0usize;
+    while i < b.len() {
+        // the best repeating unit starting at i
+        let mut best: Option<(usize, usize)> = None; // (period, repeats)
+        for p in 1..=80usize {
+            if i + 2 * p > b.len() {
+                break;
+            }
+            let unit = &b[i..i + p];
+            let mut k = 1;
+            while i + (k + 1) * p <= b.len() && &b[i + k * p..i + (k + 1) * p] == unit {
+                k += 1;
+            }
+            if k * p >= 48 && best.map(|(bp, bk)| k * p > bp * bk).unwrap_or(true) {
+                best = Some((p, k));
+            }
+        }
+        match best {
+            Some((p, k)) => {
+                if lit_start < i {
+                    parts.push(g_plain(&b[lit_start..i]));
+                }
+                parts.push(format!("rep {} {}", k, g_plain(&b[i..i + p])));
+                i += p * k;
+                lit_start = i;
+            }
+            None => i += 1,
+        }
+    }
+    if lit_start < b.len() {
+        parts.push(g_plain(&b[lit_start..]));
+    }
+    if parts.len() == 1 && !parts[0].starts_with("rep") {
+        return parts.remove(0);
+    }
+    format!("({})", parts.join(" ++ "))
+}
+pub fn g_str(s: &str) -> String {
+    g_bytes(s.as_bytes())
+}
 
 pub fn g_z(dec: &str) -> String {
     if let Some(m) = dec.strip_prefix('-') {
